@@ -48,6 +48,9 @@ enum Back {
     SenderAndFut(String, Sender, u64, Option<Fut>),
     Receiver(String, Receiver),
     ReceiverAndDelivery(String, Receiver, Option<Dlv>),
+    SessAndTxn(String, Sess, String, Option<fe2o3_amqp::transaction::OwnedTransaction>),
+    TxnAndSender(String, fe2o3_amqp::transaction::OwnedTransaction, String, Sender),
+    Txn(String, Option<fe2o3_amqp::transaction::OwnedTransaction>),
 }
 struct Call { id: u64, op: String, scope: String, h: JoinHandle<(J, Back)>, cancel: Option<oneshot::Sender<()>> }
 
@@ -64,6 +67,9 @@ pub struct Exec {
     side_listener: bool,
     peer: Option<DuplexStream>,
     sasl: SaslSt,
+    txns: HashMap<String, fe2o3_amqp::transaction::OwnedTransaction>,
+    txn_ids: Vec<Vec<u8>>,
+    ctl_links: Vec<(u16, u32)>,
     buf: Vec<u8>,
     eof_logged: bool,
     sh: Shifts,
@@ -152,7 +158,7 @@ fn identify(msg: &Message<Body<Value>>) -> (i64, usize, bool) {
 
 impl Exec {
     pub fn new(listener: bool) -> Self {
-        Exec { log: vec![], t0: tokio::time::Instant::now(), cpu_mark: crate::mon::thread_cpu_ns(), alloc_mark: crate::mon::alloc_mark(), side_listener: listener, peer: None, sasl: SaslSt::default(), buf: vec![], eof_logged: false, sh: Shifts::default(), conn: None, sessions: HashMap::new(),
+        Exec { log: vec![], t0: tokio::time::Instant::now(), cpu_mark: crate::mon::thread_cpu_ns(), alloc_mark: crate::mon::alloc_mark(), side_listener: listener, peer: None, sasl: SaslSt::default(), txns: HashMap::new(), txn_ids: vec![], ctl_links: vec![], buf: vec![], eof_logged: false, sh: Shifts::default(), conn: None, sessions: HashMap::new(),
                senders: HashMap::new(), receivers: HashMap::new(), held: HashMap::new(), futs: HashMap::new(), calls: vec![], next_call: 1, roles: HashMap::new(),
                pending_begins: vec![], eut_channel: HashMap::new(), eut_dids: HashMap::new(), eut_frames: HashMap::new(), eut_noi: HashMap::new(),
                out_progress: HashMap::new(), sent_queue: HashMap::new(), link_of_handle: HashMap::new(), pending_attach: vec![], msg_shapes: HashMap::new(), names: HashMap::new(), eut_sender_dc: HashMap::new(), peer_link_name: HashMap::new(), gates: HashMap::new(), batch_calls: vec![], calls_scope: HashMap::new(), link_sess: HashMap::new(), await_of: HashMap::new() }
@@ -234,6 +240,7 @@ impl Exec {
                 self.roles.insert((true, ch, a.handle.0), eut_sender);
                 self.link_of_handle.insert((ch, a.handle.0), a.name.clone());
                 if eut_sender { self.eut_sender_dc.insert(a.name.clone(), (a.initial_delivery_count.unwrap_or(0), 0)); }
+                if matches!(a.target.as_deref(), Some(fe2o3_amqp_types::messaging::TargetArchetype::Coordinator(_))) && eut_sender { self.ctl_links.push((ch, a.handle.0)); }
             }
             Performative::Transfer(t) => {
                 *self.eut_frames.entry(ch).or_insert(0) += 1;
@@ -264,6 +271,24 @@ impl Exec {
             ev["pl"] = json!({"m": m, "off": offset, "len": payload.len(), "ok": ok, "total": mlen});
             if t.more { self.out_progress.insert(key, (m, offset + payload.len(), did)); } else { self.out_progress.remove(&key); }
         }
+        if let Performative::Transfer(t) = &p { if self.ctl_links.contains(&(ch, t.handle.0)) {
+            // a control message of the endpoint as transaction controller
+            let v = serde_amqp::from_slice::<fe2o3_amqp_types::messaging::message::__private::Deserializable<Message<Body<Value>>>>(payload).ok().map(|m| m.0.body);
+            let mut c = json!({"k": "undecodable", "tx": -1, "fail": false});
+            if let Some(Body::Value(fe2o3_amqp_types::messaging::AmqpValue(Value::Described(d)))) = v {
+                let code = match &d.descriptor { serde_amqp::descriptor::Descriptor::Code(c) => *c, serde_amqp::descriptor::Descriptor::Name(n) => if n.as_str() == "amqp:declare:list" { 0x31 } else if n.as_str() == "amqp:discharge:list" { 0x32 } else { 0 } };
+                if let Value::List(l) = &d.value {
+                    if code == 0x31 { c = json!({"k": "declare", "tx": -1, "fail": false}); }
+                    if code == 0x32 {
+                        let id = match l.first() { Some(Value::Binary(b)) => b.to_vec(), _ => vec![] };
+                        let fail = matches!(l.get(1), Some(Value::Bool(true)));
+                        c = json!({"k": "discharge", "tx": self.txn_index(&id), "fail": fail});
+                    }
+                }
+            }
+            ev["ctl"] = c;
+        } }
+        self.note_txn(&mut f);
         ev["f"] = f;
         self.emit(ev);
     }
@@ -274,7 +299,8 @@ impl Exec {
             if self.calls[i].h.is_finished() {
                 let c = self.calls.remove(i);
                 match c.h.await {
-                    Ok((res, back)) => { self.put_back(back); let lname = c.scope.strip_prefix("l:").map(|l| self.names.get(l).cloned().unwrap_or(l.to_string())).unwrap_or_default(); let of = self.await_of.get(&c.id).copied().unwrap_or(0); self.emit(json!({"ev": "ApiRet", "call": c.id, "op": c.op, "scope": c.scope, "lname": lname, "of": of, "res": res})); }
+                    Ok((mut res, back)) => { self.put_back(back);
+                        if let Some(t) = res.get("txn").cloned() { let id = bytes(&t); res["tx"] = json!(self.txn_index(&id)); } let lname = c.scope.strip_prefix("l:").map(|l| self.names.get(l).cloned().unwrap_or(l.to_string())).unwrap_or_default(); let of = self.await_of.get(&c.id).copied().unwrap_or(0); self.emit(json!({"ev": "ApiRet", "call": c.id, "op": c.op, "scope": c.scope, "lname": lname, "of": of, "res": res})); }
                     Err(e) => { let p = e.is_panic(); self.emit(json!({"ev": "ApiRet", "call": c.id, "op": c.op, "scope": c.scope, "lname": "", "of": 0, "res": {"ok": false, "class": if p { "PANIC" } else { "Cancelled" }, "cond": "", "dbg": ""}})); }
                 }
             } else { i += 1; }
@@ -292,6 +318,9 @@ impl Exec {
             Back::Sender(n, s) => { self.senders.insert(n, s); }
             Back::SenderAndFut(n, s, id, f) => { self.senders.insert(n, s); if let Some(f) = f { self.futs.insert(id, f); } }
             Back::Receiver(n, r) => { self.receivers.insert(n, r); }
+            Back::SessAndTxn(sn, s, x, t) => { self.sessions.insert(sn, s); if let Some(t) = t { self.txns.insert(x, t); } }
+            Back::TxnAndSender(x, t, ln, l) => { self.txns.insert(x, t); self.senders.insert(ln, l); }
+            Back::Txn(x, t) => { if let Some(t) = t { self.txns.insert(x, t); } }
             Back::ReceiverAndDelivery(n, r, d) => { if let Some(d) = d { self.held.entry(n.clone()).or_default().push(d); } self.receivers.insert(n, r); }
         }
     }
@@ -351,12 +380,21 @@ impl Exec {
             let (idc, dels) = self.peer_link_name.get(&(ch, h)).and_then(|n| self.eut_sender_dc.get(n)).copied().unwrap_or((self.sh.dc_out, 0));
             f["dc"] = json!(off(idc.wrapping_add((dels as i64 - lag).max(0) as u32), self.sh.dc_out));
         } }
-        if name == "disposition" { for k in ["first", "last"] { if let Some(d) = f.get(k).and_then(|r| r.get("d")).and_then(|r| r.as_u64()) {
+        if name == "disposition" { for k in ["first", "last"] { if f.get(k).and_then(|r| r.get("d")).and_then(|r| r.as_str()) == Some("last") {
+            // the delivery the endpoint started most recently on that session
+            let ech = e.get("ech").and_then(|x| x.as_u64()).unwrap_or(0) as u16;
+            match self.eut_dids.get(&ech).and_then(|v| v.last()) { Some(id) => f[k] = json!(off(*id, self.sh.out)), None => return self.skip(e, "delivery not seen") }
+        } }
+        for k in ["first", "last"] { if let Some(d) = f.get(k).and_then(|r| r.get("d")).and_then(|r| r.as_u64()) {
             let ech = e.get("ech").and_then(|x| x.as_u64()).unwrap_or(0) as u16;
             // the d-th delivery the endpoint started on that session; ids are consecutive, so a reference beyond the last one seen names an id the endpoint has not used yet
             let seen = self.eut_dids.get(&ech).cloned().unwrap_or_default();
             let id = match seen.get(d as usize) { Some(id) => *id, None => match seen.last() { Some(last) => last.wrapping_add((d as usize + 1 - seen.len()) as u32), None => return self.skip(e, "delivery not seen") } };
             f[k] = json!(off(id, self.sh.out)); } } }
+        // transaction ids: {"ref": i} names the i-th id the resource has declared so far; {"raw": [..]} is taken literally
+        if let Some(t) = f.get("state").and_then(|st| st.get("txn")).cloned() {
+            match self.txn_bytes(&t) { Some(b) => f["state"]["txn"] = json!(b), None => return self.skip(e, "transaction not declared") }
+        }
         let roles = self.roles.clone();
         let p = perf_from(name, &f, &self.sh, |h| *roles.get(&(false, ch, h)).unwrap_or(&false));
         if let Performative::Attach(a) = &p {
@@ -377,7 +415,23 @@ impl Exec {
             body.extend_from_slice(&enc[o..end]);
             pl = json!({"m": m, "off": o, "len": end - o, "ok": true, "total": enc.len()});
         }
-        let fj = perf_json(&p, Dir::FromPeer, &self.sh, |h| *roles.get(&(false, ch, h)).unwrap_or(&false));
+        let mut ctl = J::Null;
+        if let Some(c) = e.get("ctl") {
+            use fe2o3_amqp_types::transaction::{Declare, Discharge};
+            let k = c["k"].as_str().unwrap_or("declare");
+            let enc = if k == "declare" {
+                ctl = json!({"k": "declare", "tx": -1, "fail": false});
+                serde_amqp::to_vec(&Serializable(Message::builder().value(Declare { global_id: None }).build())).unwrap()
+            } else {
+                let Some(id) = self.txn_bytes(&c["txn"]) else { return self.skip(e, "transaction not declared") };
+                let fail = c.get("fail").and_then(|x| x.as_bool());
+                ctl = json!({"k": "discharge", "tx": self.txn_index(&id), "fail": fail.unwrap_or(false)});
+                serde_amqp::to_vec(&Serializable(Message::builder().value(Discharge { txn_id: Binary::from(id), fail }).build())).unwrap()
+            };
+            body.extend_from_slice(&enc);
+        }
+        let mut fj = perf_json(&p, Dir::FromPeer, &self.sh, |h| *roles.get(&(false, ch, h)).unwrap_or(&false));
+        self.note_txn(&mut fj);
         let mut bytes = frame_bytes(0, ch, &body);
         // header overrides for hostile frames: size field, doff, frame type
         if let Some(h) = e.get("hdr") {
@@ -387,7 +441,30 @@ impl Exec {
             if let Some(t) = h.get("ftype").and_then(|x| x.as_u64()) { bytes[5] = t as u8; }
         }
         let ok = self.peer_write(&bytes).await;
-        self.emit(json!({"ev": "PFrame", "perf": name, "ch": ch, "size": bytes.len(), "f": fj, "pl": pl, "written": ok}));
+        let mut row = json!({"ev": "PFrame", "perf": name, "ch": ch, "size": bytes.len(), "f": fj, "pl": pl, "written": ok});
+        if !ctl.is_null() { row["ctl"] = ctl; }
+        self.emit(row);
+    }
+    /// bytes of a transaction id given as {"ref": i} (i-th id declared so far) or {"raw": [..]}
+    fn txn_bytes(&self, t: &J) -> Option<Vec<u8>> {
+        if let Some(i) = t.get("ref").and_then(|x| x.as_u64()) { return self.txn_ids.get(i as usize).cloned(); }
+        if let Some(r) = t.get("raw") { return Some(bytes(r)); }
+        if t.is_array() { return Some(bytes(t)); }
+        None
+    }
+    /// index of a transaction id among the declared ones: -1 = none given, -2 = never declared
+    fn txn_index(&self, id: &[u8]) -> i64 {
+        if id.is_empty() { return -1; }
+        self.txn_ids.iter().position(|x| x == id).map(|i| i as i64).unwrap_or(-2)
+    }
+    /// a delivery state carrying a transaction id gets its index ("tx"); a `declared` state registers a new id first
+    fn note_txn(&mut self, f: &mut J) {
+        let Some(st) = f.get("state").cloned() else { return; };
+        let id = st.get("txn").map(bytes).unwrap_or_default();
+        let fresh = st["k"] == "declared" && !id.is_empty() && !self.txn_ids.contains(&id);
+        if st["k"] == "declared" { f["state"]["fresh"] = json!(fresh); }
+        if fresh { self.txn_ids.push(id.clone()); }
+        f["state"]["tx"] = json!(self.txn_index(&id));
     }
 
     /// SASL frame of the scripted peer, built from a symbolic descriptor (see spec/sasl/SaslRules.tla)
@@ -567,12 +644,15 @@ impl Exec {
                 let hmax = cfg.get("hmax").and_then(|x| x.as_u64()).unwrap_or(u32::MAX as u64) as u32;
                 let buf = cfg.get("buf").and_then(|x| x.as_u64()).unwrap_or(256) as usize;
                 let sn = s.clone();
+                let txn = cfg.get("txn").and_then(|x| x.as_bool()).unwrap_or(false);
                 let h = match conn {
                     Conn::C(mut c) if kind == "ABegin" => { self.pending_begins.push(s.clone()); tokio::spawn(async move {
                         let r = Session::builder().next_outgoing_id(noi).incoming_window(iw).outgoing_window(ow).handle_max(hmax).buffer_size(buf).begin(&mut c).await;
                         match r { Ok(x) => (ok_json(), Back::ConnAndSess(Conn::C(c), sn, Some(Sess::C(x)))), Err(e) => (err_json(&e), Back::ConnAndSess(Conn::C(c), sn, None)) } }) }
                     Conn::L(mut c) if kind == "AAcceptSession" => { self.pending_begins.push(s.clone()); tokio::spawn(async move {
-                        let acc = SessionAcceptor::builder().next_outgoing_id(noi).incoming_window(iw).outgoing_window(ow).handle_max(hmax).buffer_size(buf).build();
+                        let mut bld = SessionAcceptor::builder().next_outgoing_id(noi).incoming_window(iw).outgoing_window(ow).handle_max(hmax).buffer_size(buf);
+                        if txn { bld = bld.control_link_acceptor(fe2o3_amqp::transaction::coordinator::ControlLinkAcceptor::default()); }
+                        let acc = bld.build();
                         match acc.accept(&mut c).await { Ok(x) => (ok_json(), Back::ConnAndSess(Conn::L(c), sn, Some(Sess::L(x)))), Err(e) => (err_json(&e), Back::ConnAndSess(Conn::L(c), sn, None)) } }) }
                     other => { self.conn = Some(other); return self.skip(e, "wrong side"); }
                 };
@@ -656,6 +736,51 @@ impl Exec {
                     }
                 });
                 self.start(if batch { "send_batchable" } else { "send" }, &format!("l:{l}"), json!({"m": m, "len": len, "settled": settled.map(|b| if b { "t" } else { "f" }).unwrap_or("none"), "shape": shape}), Some(ctx), h);
+            }
+            "ATxnDeclare" => {
+                use fe2o3_amqp::transaction::OwnedTransaction;
+                let (x, sname) = (e["x"].as_str().unwrap().to_string(), e["s"].as_str().unwrap().to_string());
+                let Some(sess) = self.sessions.remove(&sname) else { return self.skip(e, "no session handle"); };
+                let Sess::C(mut sh) = sess else { self.sessions.insert(sname, sess); return self.skip(e, "wrong side"); };
+                let (xn, sn) = (x.clone(), sname.clone());
+                let h = tokio::spawn(async move {
+                    match OwnedTransaction::declare(&mut sh, format!("ctl-{xn}"), None).await {
+                        Ok(t) => { let id = { use fe2o3_amqp::transaction::TransactionBase; t.txn_id().to_vec() }; (json!({"ok": true, "class": "", "cond": "", "dbg": "", "txn": id}), Back::SessAndTxn(sn, Sess::C(sh), xn, Some(t))) }
+                        Err(er) => (err_json(&er), Back::SessAndTxn(sn, Sess::C(sh), xn, None)),
+                    }
+                });
+                self.start("txn_declare", &format!("s:{sname}"), json!({"x": x}), None, h);
+            }
+            "ATxnPost" => {
+                use fe2o3_amqp::transaction::TransactionPosting;
+                let (x, l) = (e["x"].as_str().unwrap().to_string(), e["l"].as_str().unwrap().to_string());
+                let Some(t) = self.txns.remove(&x) else { return self.skip(e, "no transaction"); };
+                let Some(mut snd) = self.senders.remove(&l) else { self.txns.insert(x, t); return self.skip(e, "no sender handle"); };
+                let (m, len) = (e["m"].as_u64().unwrap() as u32, e["len"].as_u64().unwrap_or(20) as usize);
+                self.msg_shapes.insert(m, (len, "data".into()));
+                let sendable = Sendable::builder().message(build_message(m, len, "data")).build();
+                let (xn, ln) = (x.clone(), l.clone());
+                let h = tokio::spawn(async move {
+                    let r = t.post(&mut snd, sendable).await;
+                    match r { Ok(o) => (json!({"ok": true, "class": "", "cond": "", "dbg": "", "outcome": class_of(&format!("{o:?}")).to_lowercase()}), Back::TxnAndSender(xn, t, ln, snd)), Err(er) => (err_json(&er), Back::TxnAndSender(xn, t, ln, snd)) }
+                });
+                self.start("txn_post", &format!("l:{l}"), json!({"x": x, "m": m}), None, h);
+            }
+            "ATxnCommit" | "ATxnRollback" => {
+                use fe2o3_amqp::transaction::TransactionDischarge;
+                let x = e["x"].as_str().unwrap().to_string();
+                let Some(t) = self.txns.remove(&x) else { return self.skip(e, "no transaction"); };
+                let commit = kind == "ATxnCommit";
+                let xn = x.clone();
+                let h = tokio::spawn(async move {
+                    let r = if commit { t.commit().await } else { t.rollback().await };
+                    match r { Ok(_) => (ok_json(), Back::Txn(xn, None)), Err(er) => (err_json(&er), Back::Txn(xn, None)) }
+                });
+                self.start(if commit { "txn_commit" } else { "txn_rollback" }, "txn", json!({"x": x}), None, h);
+            }
+            "ATxnDrop" => {
+                let x = e["x"].as_str().unwrap().to_string();
+                if self.txns.remove(&x).is_some() { self.emit(json!({"ev": "ApiDrop", "scope": format!("x:{x}")})); } else { self.skip(e, "no transaction"); }
             }
             "AAwaitOutcome" => {
                 let id = match e.get("nth").and_then(|x| x.as_u64()) { Some(n) => match self.batch_calls.get(n as usize) { Some(c) => *c, None => return self.skip(e, "no such batchable send") }, None => e["call"].as_u64().unwrap_or(0) };
